@@ -169,9 +169,6 @@ Proof. cbn [hist_ok]. intro H. apply andb_true_iff in H. exact H. Qed.
 
 (** * history-level pending list *)
 
-Definition pushed_raw (o : op) : list item :=
-  match o with GPush x => [x] | LPush _ x => [x] | _ => [] end.
-
 Lemma cnt_pend_push z o l : cnt z (pend_push o l) = (cnt z (pushed_raw o) + cnt z l)%nat.
 Proof. destruct o; cbn [pend_push pushed_raw]; rewrite ?cnt_app, ?cnt_cons, ?cnt_nil; lia. Qed.
 
@@ -375,34 +372,7 @@ Proof.
   - exact H.
 Qed.
 
-(** * well-formed histories
-
-    [wf_hist]: every [LPush]/[LPop] names a handle created by an earlier [NewHandle] (one that
-    happened with [n > 0]), and the pushed item ids are pairwise distinct (so that "never twice"
-    means what it says). Read-only calls on unknown handles, any number of [NewHandle]s (handles
-    may share a ring) and any [cap] are fine. *)
-
-Definition op_wf (nh : nat) (seen : list item) (o : op) : bool :=
-  match o with
-  | GPush x => negb (OWSOracle.mem x seen)
-  | LPush h x => Nat.ltb h nh && negb (OWSOracle.mem x seen)
-  | LPop h _ => Nat.ltb h nh
-  | _ => true
-  end.
-
-Definition nh_next (n nh : nat) (o : op) : nat :=
-  match o with
-  | NewHandle => match n with O => nh | S _ => S nh end
-  | _ => nh
-  end.
-
-Fixpoint wf_ops (n nh : nat) (seen : list item) (ops : list op) : bool :=
-  match ops with
-  | [] => true
-  | o :: ops' => op_wf nh seen o && wf_ops n (nh_next n nh o) (pushed_raw o ++ seen) ops'
-  end.
-
-Definition wf_hist (n : nat) (cap : Z) (ops : list op) : bool := wf_ops n 0 [] ops.
+(** * well-formed histories ([wf_hist] is defined next to the oracle, Queue/PWSOracle.v) *)
 
 Lemma handles_len_step n s o :
   Inv n s -> length (s_handles (fst (step s o))) = nh_next n (length (s_handles s)) o.
